@@ -461,7 +461,11 @@ func tryConvertToInt(v any) (int, bool) {
 		return value, true
 	case int64:
 		return int(value), true
+	case uint64:
+		return int(value), true
 	case float64:
+		return int(value), true
+	case float32:
 		return int(value), true
 	case bool:
 		return 0, false
@@ -483,6 +487,10 @@ func tryConvertToFloat(v any) (float64, bool) {
 	case int:
 		return float64(value), true
 	case int64:
+		return float64(value), true
+	case uint64:
+		return float64(value), true
+	case float32:
 		return float64(value), true
 	case bool:
 		return 0, false
